@@ -12,7 +12,7 @@ RULE = ("(a) pass: random programs (anonymous and native gate sets) with subcirc
         "non-trivial = program contains a subcircuit block; distinct = S-expression + mode")
 ASSUMPTIONS = ["reference expansion in vf/meaning.py", "harness native gate set (vf/gateset.py)"]
 TIERS = {"quick": {"shards": 8, "budget_s": 60}, "thorough": {"shards": 16, "budget_s": 300}}
-REQUIRE = {"route:build": 500, "native:partial": 100, "calls-after-earlier-call-on-same-object": 500, "sub-in-macro": 20, "sub-in-loop": 20, "mode:pass": 200, "mode:exec": 100, "native-bounding-gates": 50,
+REQUIRE = {"subcircuit-body-with-explicit-prepare-or-measure": 300, "route:build": 500, "native:partial": 100, "calls-after-earlier-call-on-same-object": 500, "sub-in-macro": 20, "sub-in-loop": 20, "mode:pass": 200, "mode:exec": 100, "native-bounding-gates": 50,
            "caller-bounding-gates": 20, "exec-readouts-compared": 100}
 
 NATIVE = None
@@ -192,6 +192,33 @@ def judge_pass(case):
     except M.MeaningError as ex:
         fails.append(("result-has-no-meaning:" + ex.kind, {"error": str(ex)}))
     return "ok", fails
+
+
+def explicit_bounds_inside(rng, prog):
+    subs = [b for b in sx.walk(prog) if b[0] == "subcircuit_block"]
+    if not subs:
+        return None
+    target = rng.choice(subs)
+    r = rng.random()
+    body = target[2:]
+    if r < 0.4:
+        body = (("gate", "prepare_all"),) + body
+    elif r < 0.8:
+        body = body + (("gate", "measure_all"),)
+    else:
+        body = (("gate", "prepare_all"),) + body + (("gate", "measure_all"),)
+    new = target[:2] + body
+    done = [False]
+
+    def rw(s):
+        if not isinstance(s, tuple):
+            return s
+        if s is target and not done[0]:
+            done[0] = True
+            return new
+        return tuple(rw(x) for x in s)
+
+    return rw(prog)
 
 
 def loop_body_is_subcircuit(s):
@@ -376,6 +403,13 @@ def shard(ctx):
                 case["prog"], case["native"] = folded, "partial"
                 case["caller"] = rng.choice([None, "defs", "names-new"])
                 rec.count("native:partial")
+        if case["mode"] == "pass" and rng.random() < 0.25:
+            # a subcircuit block whose body itself starts with a prepare gate or ends with a measure gate: the pass
+            # still adds its own bounding gates (what the result then means is another question -- C12)
+            p2 = explicit_bounds_inside(rng, case["prog"])
+            if p2 is not None:
+                case["prog"] = p2
+                rec.count("subcircuit-body-with-explicit-prepare-or-measure")
         if case["mode"] == "pass" and rng.random() < 0.3:
             case["route"] = "build"
             if rng.random() < 0.5:
